@@ -1300,6 +1300,64 @@ Section MC.
       intros Hp. apply (Hmain l); auto.
   Qed.
 
+  (* valid arguments are accepted: list, tuple or string alike *)
+  Definition valid_type (t : string) : Prop := norm_type t <> None.
+
+  Lemma place_accepts ic (co : C) shells : forall types rest,
+    List.length types = List.length shells -> Forall valid_type types ->
+    exists out, place ic co shells (types ++ rest) = Some (out, rest).
+  Proof.
+    induction shells as [|sh r IH]; intros types rest Hl Hv; destruct types as [|t ts]; simpl in Hl; try discriminate.
+    - exists []. reflexivity.
+    - inversion Hv as [|? ? Ht Hts]; subst. simpl. unfold valid_type in Ht.
+      destruct (norm_type t) as [t'|]; [|congruence].
+      destruct (IH ts rest) as [out ->]; auto. eexists. reflexivity.
+  Qed.
+
+  Lemma place_all_accepts d ats : forall ic types,
+    Forall (fun ac : string * C => dict_find d (fst ac) <> None) ats ->
+    List.length types
+    = list_sum (map (fun ac : string * C => List.length (match dict_find d (fst ac) with Some s => s | None => [] end)) ats) ->
+    Forall valid_type types ->
+    exists out, place_all d ic ats types = Some out.
+  Proof.
+    induction ats as [|[a co] r IH]; intros ic types Hd Hl Hv; simpl.
+    - eexists. reflexivity.
+    - inversion Hd as [|? ? Ha Hr]; subst. simpl in Ha, Hl.
+      destruct (dict_find d a) as [shells|]; [|congruence].
+      rewrite <- (firstn_skipn (List.length shells) types) in Hv |- *.
+      apply Forall_app in Hv as [Hv1 Hv2].
+      assert (List.length (firstn (List.length shells) types) = List.length shells) as Hf.
+      { rewrite firstn_length. lia. }
+      destruct (place_accepts ic co shells _ (skipn (List.length shells) types) Hf Hv1) as [o1 ->].
+      destruct (IH (S ic) (skipn (List.length shells) types) Hr) as [o2 ->]; auto.
+      + rewrite skipn_length. lia.
+      + eexists. reflexivity.
+  Qed.
+
+  Theorem mc_accepts d atoms (coords : list C) ct n :
+    List.length atoms = List.length coords ->
+    total_shells d atoms = Some n ->
+    List.length (expand ct n) = n -> Forall valid_type (expand ct n) ->
+    (match ct with CStr s => valid_type s | _ => True end) ->
+    exists res, fst (make_contractions_model (d, atoms, coords, ct)) = Some res.
+  Proof.
+    intros Hl Ht Hn Hv Hs. unfold make_contractions_model. cbn [fst].
+    rewrite Hl, Nat.eqb_refl, Ht. cbn [negb].
+    assert (exists res, place_all d 0 (combine atoms coords) (expand ct n) = Some res) as [res Hres].
+    { apply place_all_accepts; auto.
+      - clear -Hl Ht. unfold total_shells in Ht. revert coords n Hl Ht.
+        induction atoms as [|a r IH]; intros [|co cs] n Hl Ht; simpl in *; try discriminate; constructor.
+        + simpl. destruct (dict_find d a); discriminate.
+        + destruct (dict_find d a); [|discriminate].
+          destruct (map_opt (dict_find d) r) eqn:E; [|discriminate]. eapply IH; eauto.
+      - rewrite Hn. apply total_shells_sum; auto. }
+    exists res. destruct ct as [s|l|l]; cbn [expand] in *.
+    - unfold valid_type in Hs. destruct (norm_type s); [|congruence]. rewrite Hn, Nat.eqb_refl. exact Hres.
+    - rewrite Hn, Nat.eqb_refl. exact Hres.
+    - rewrite Hn, Nat.eqb_refl. exact Hres.
+  Qed.
+
   Theorem mc_args_untouched (args : @mc_args C) : snd (make_contractions_model args) = args.
   Proof. destruct args as [[[d atoms] coords] ct]. reflexivity. Qed.
 
